@@ -107,7 +107,7 @@ func DetDriver(r *rand.Rand, n int) [][]Action {
 		for j := 0; j < 1+r.Intn(3); j++ {
 			m := map[string]string{}
 			for k := 0; k < 2+r.Intn(5); k++ {
-				m[[]string{"json", "xml", "db", "yaml", "form", "bson", "toml"}[k]] = "v" + strconv.Itoa(r.Intn(100))
+				m[[]string{"json", "xml", "db", "JSON", "form", "Json", "toml"}[k]] = "v" + strconv.Itoa(r.Intn(100)) // keys that differ only by case
 			}
 			fields = append(fields, stm(idn("F"+strconv.Itoa(j)), idn("int"), tagNode(m)))
 		}
